@@ -626,6 +626,7 @@ func init() {
 	}})
 	mutant("write-loop-reset-names-no-stream", "emitters-address-stream", "conn.go", "\tdefer ReleaseFrameHeader(h)\n\n\th.SetStream(id)\n\n\tfr := AcquireFrame(FrameResetStream).(*RstStream)", "\tdefer ReleaseFrameHeader(h)\n\n\tfr := AcquireFrame(FrameResetStream).(*RstStream)")
 	mutant("write-loop-reset-carries-no-code", "emitter-payloads", "conn.go", "\tfr.SetCode(code)\n\n\th.SetBody(fr)\n\n\treturn c.writeFrame(h)", "\th.SetBody(fr)\n\n\treturn c.writeFrame(h)")
+	mutant("headers-payload-assembled-and-dropped", "payload-layout", "headers.go", "\t\tpayload = http2utils.AddPadding(payload)\n\t}\n\n\tfrh.payload = payload\n}", "\t\tpayload = http2utils.AddPadding(payload)\n\t}\n\n\t_ = payload\n}")
 	mutant("refused-stream-forgotten", "late-frames-on-reset-streams", "serverConn.go", "					// turns up later is out of order.\n					markClosed(fr.Stream(), true)\n", "					// turns up later is out of order.\n")
 	mutant("refused-stream-remembered-as-closed-by-the-peer", "late-frames-on-reset-streams", "serverConn.go", "					// turns up later is out of order.\n					markClosed(fr.Stream(), true)", "					// turns up later is out of order.\n					markClosed(fr.Stream(), false)")
 	mutant("refused-header-block-not-decoded", "late-frames-on-reset-streams", "serverConn.go", "					if err := sc.discardFrame(fr); err != nil {\n						sc.writeError(nil, err)\n						break loop\n					}\n\n					continue\n				}\n\n				if fr.Stream() <= highID {", "					if fr.Type() == FrameData {\n						sc.consumeConnRecvWindow(fr.Len())\n					}\n\n					continue\n				}\n\n				if fr.Stream() <= highID {")
